@@ -458,7 +458,7 @@ Proof.
     assert (GAP : d_bit (x_parser_bs s2) + HDR_MIN <= d_bit b) by (rewrite PB2; exact EV).
     assert (LTP : Forall (fun h => hb h < d_bit b) (x_order_q s2)).
     { destruct OS2 as [_ LE]. eapply Forall_impl; [|exact LE]. simpl. intros h Hh.
-      pose proof (o_next _ _ _ OP2 PD2). unfold HDR_MIN in *. lia. }
+      pose proof (o_next _ _ _ OP2 PD2) as Hn. clear - Hh Hn GAP. unfold HDR_MIN in *. lia. }
     set (s4 := set_par ps (set_next (d_bit b) s3)).
     assert (LA4 : forall x k, la s4 x k <-> la s3 x k) by (intros; apply la_ext; subst s4; unfold estage; xs; reflexivity).
     assert (AJ4 : all_jobs s4 = all_jobs s3) by (subst s4; unfold all_jobs; xs; reflexivity).
@@ -482,7 +482,7 @@ Proof.
       - exact D.
       - intros u Hu Qu Cu. rewrite <- PB3. destruct (E u Hu Qu Cu) as [L|L]; [left; apply LA4; auto|right; auto].
       - discriminate.
-      - intros _. rewrite NX4, PB4. lia.
+      - intros _. rewrite NX4, PB4. apply N.le_refl.
       - intros _. exact OKB. }
     assert (SRT4 : StronglySorted N.lt (map hb (x_order_q s4))) by (rewrite OQ4; apply OS3).
     assert (LTP4 : Forall (fun h => hb h < d_bit (x_parser_bs s4)) (x_order_q s4)) by (rewrite OQ4, OQ3, PB4; exact LTP).
@@ -491,8 +491,8 @@ Proof.
     { rewrite PB4, US4. intros u Hu Qu Cu.
       assert (X : la s3 (fst (u_base u)) 0 \/ fst (u_base u) < d_bit b).
       { apply (ORPH (d_bit b)); auto.
-        - unfold dbs_norm in NB. lia.
-        - intros u0 H0 Q0 C0. destruct (o_u2 _ _ _ OP2 u0 H0 Q0 C0) as [L|L]; auto. right. lia. }
+        - clear - NB. unfold dbs_norm in NB. lia.
+        - intros u0 Hu0 Q0 C0. destruct (o_u2 _ _ _ OP2 u0 Hu0 Q0 C0) as [L|L]; auto. right. exact (N.lt_le_trans _ _ _ L GAP). }
       destruct X as [L|L]; [left; apply LA4; auto|right; auto]. }
     exact (own_parse_ok cfg lv crc s4 CA I4 M4 N4 T4 PD4 NB4 NX4 OW4 SRT4 LTP4 ORB4).
 Qed.
